@@ -668,6 +668,54 @@ func child(batch int, seed int64, tier, outDir string) {
 				ps.SignBlob(ctx, func(alg digest.Algorithm) (ocispec.Descriptor, error) { return blobDesc, nil }, notation.SignerSignOptions{SignatureMediaType: f})
 				ps.PluginAnnotations()
 			})
+		case ep == 18 && i%3 == 0: // the real process runner with hostile plugin stdout / stderr (scripted worker as plugin executable)
+			workerBin := filepath.Join(os.Getenv("VERIF_BIN"), "worker")
+			if _, err := os.Stat(workerBin); err != nil {
+				res.Events["worker-missing"]++
+				continue
+			}
+			replies := []string{`{"name":"fz","description":"d","version":"1.0.0","url":"u","supportedContractVersions":["1.0"],"capabilities":["SIGNATURE_GENERATOR.RAW"]}`,
+				`{"keyId":"k","keySpec":"EC-256"}`, `{"keyId":"k","signature":"c2ln","signingAlgorithm":"ECDSA-SHA-256","certificateChain":["Y2VydA=="]}`,
+				`{"signatureEnvelope":"ZW52","signatureEnvelopeType":"application/jose+json","annotations":{"a":"b"}}`, `{"verificationResults":{"SIGNATURE_VERIFIER.REVOCATION_CHECK":{"success":true,"reason":"r"}},"processedAttributes":["a",1,null]}`}
+			var stdout []byte
+			switch rng.Intn(4) {
+			case 0:
+				stdout = rng.Bytes(rng.Intn(300))
+			case 1:
+				stdout = deepNest(15000, "[", "]")
+			default:
+				stdout = mutateJSON(rng, []byte(replies[rng.Intn(len(replies))]))
+			}
+			stderr := []byte(`{"errorCode":"VALIDATION_ERROR","errorMessage":"m","errorMetadata":{"k":"v"}}`)
+			if rng.Bool() {
+				stderr = mutateJSON(rng, stderr)
+			}
+			exit := []int{0, 0, 1, 3}[rng.Intn(4)]
+			in := append(append([]byte{}, stdout...), stderr...)
+			run("plugin.CLIPlugin over a real process", id, in, func() {
+				pdir := filepath.Join(outDir, fmt.Sprintf("plugin-%d", batch))
+				os.MkdirAll(pdir, 0o755)
+				exe := filepath.Join(pdir, "notation-fz")
+				if _, err := os.Stat(exe); err != nil {
+					if os.Link(workerBin, exe) != nil {
+						b, _ := os.ReadFile(workerBin)
+						os.WriteFile(exe, b, 0o755)
+					}
+				}
+				beh, _ := json.Marshal(map[string]any{"*": map[string]any{"exit": exit, "stdout": string(stdout), "stderr": string(stderr)}})
+				os.WriteFile(exe+".behavior.json", beh, 0o644)
+				p, err := plugin.NewCLIPlugin(ctx, "fz", exe)
+				if err != nil {
+					return
+				}
+				if md, err := p.GetMetadata(ctx, &pf.GetMetadataRequest{}); err == nil && md != nil {
+					md.HasCapability(pf.CapabilitySignatureGenerator)
+				}
+				p.DescribeKey(ctx, &pf.DescribeKeyRequest{KeyID: "k"})
+				p.GenerateSignature(ctx, &pf.GenerateSignatureRequest{KeyID: "k"})
+				p.GenerateEnvelope(ctx, &pf.GenerateEnvelopeRequest{KeyID: "k"})
+				p.VerifySignature(ctx, &pf.VerifySignatureRequest{})
+			})
 		default: // top-level signing API with unusual options
 			run("notation.Sign*", id, nil, func() {
 				gs, _ := signer.NewGenericSigner(good.Key, good.Chain())
